@@ -251,24 +251,19 @@ def capture_norm_samplers():
 
 
 # --------------------------------------------------------------------------- the real engine
-class EngineRun:
-    """One logical step of the real machinery on the logical batch (x, y).
+class Engine:
+    """The real objects for one configuration, with the primitives a training loop uses.
 
     gsm_mode  : hooks | functorch | ew | ghost        (real wrapper classes)
     clipping  : flat | per_layer | adaptive            (class picked by the real get_optimizer_class)
-    max_phys  : None, or the max physical batch size for the real BatchMemoryManager
-    accum     : number of backward passes accumulated before the step (non-Poisson accumulation)
-    noise     : 'zero' | 'count' (rig.patched_normal modes)
-    Results: .summed (list of np arrays, `p.summed_grad` right after the step), .grad (`p.grad`
-    handed to the inner optimizer), .noise_calls, .opt_class, .norms (ghost only)
     """
 
-    def __init__(self, spec, x, y, *, gsm_mode="hooks", clipping="flat", C=1.0, reduction="mean",
-                 max_phys=None, sigma=1.0, noise="zero", ebs=None, accum=1, col=False, inner="sgd", lr=0.0, capture=False):
+    def __init__(self, spec, *, gsm_mode="hooks", clipping="flat", C=1.0, reduction="mean", sigma=1.0, ebs=1, col=False,
+                 inner="sgd", lr=0.0, capture=False, noise="zero"):
         from opacus.grad_sample.utils import get_gsm_class
         from opacus.optimizers import get_optimizer_class
 
-        self.spec = spec
+        self.spec, self.gsm_mode, self.clipping, self.reduction = spec, gsm_mode, clipping, reduction
         model = build(spec)
         self.plain = model
         cls = get_gsm_class(gsm_mode)
@@ -279,19 +274,13 @@ class EngineRun:
             kw.update(max_grad_norm=C, use_ghost_clipping=True)
         self.gsm = cls(model, batch_first=True, loss_reduction=reduction, **kw)
         params = list(self.gsm.parameters())
-        if inner == "sgd":
-            io = torch.optim.SGD(params, lr=lr)
-        elif inner == "momentum":
-            io = torch.optim.SGD(params, lr=lr, momentum=0.9)
-        else:
-            io = torch.optim.Adam(params, lr=lr)
+        self.inner = make_inner(inner, params, lr)
         self.opt_class = get_optimizer_class(clipping=clipping, distributed=False, grad_sample_mode=gsm_mode)
         okw = {}
         if clipping == "adaptive":
             okw.update(target_unclipped_quantile=0.5, clipbound_learning_rate=0.2, max_clipbound=1e6, min_clipbound=1e-6, unclipped_num_std=1.0)
-        n = len(x)
-        self.ebs = ebs if ebs is not None else max(n, 1)
-        self.opt = self.opt_class(io, noise_multiplier=sigma, max_grad_norm=C, expected_batch_size=self.ebs, loss_reduction=reduction, **okw)
+        self.ebs = ebs
+        self.opt = self.opt_class(self.inner, noise_multiplier=sigma, max_grad_norm=C, expected_batch_size=ebs, loss_reduction=reduction, **okw)
         crit = PerSampleLoss(spec["loss"], reduction, col=col)
         if gsm_mode == "ghost":
             from opacus.utils.fast_gradient_clipping_utils import DPLossFastGradientClipping
@@ -299,16 +288,93 @@ class EngineRun:
             crit = DPLossFastGradientClipping(self.gsm, self.opt, crit, reduction)
         self.crit = crit
         self.norms = []
-        self.records = []          # per physical batch: captured norm-sampler inputs (ghost + capture)
-        self._rec = None
-        with (capture_norm_samplers() if capture else contextlib.nullcontext()) as rec, rig.patched_normal(noise) as log:
-            self._rec = rec
+        self.records = []          # per ghost backward: (B, captured norm-sampler inputs)
+        self._stack = contextlib.ExitStack()
+        self._rec = self._stack.enter_context(capture_norm_samplers()) if capture else None
+        self.log = self._stack.enter_context(rig.patched_normal(noise))
+        self.param_names = [n for n, _ in self.plain.named_parameters()]
+
+    def close(self):
+        self._stack.close()
+
+    def __enter__(self):
+        return self
+
+    def __exit__(self, *a):
+        self.close()
+
+    def fb(self, xb, yb):
+        n0 = len(self._rec) if self._rec is not None else 0
+        out = self.gsm(xb)
+        loss = self.crit(out, yb)
+        loss.backward()
+        if self._rec is not None:
+            self.records.append((len(xb), self._rec[n0:]))
+        if getattr(self.gsm, "_per_sample_gradient_norms", None) is not None:
+            self.norms.append(self.gsm._per_sample_gradient_norms.detach().numpy().copy())
+
+    def last_grad_samples(self):
+        """per-sample gradients of the most recent backward pass, one [B,…] array per parameter"""
+        out = []
+        for p in self.opt.params:
+            gs = p.grad_sample
+            gs = gs[-1] if isinstance(gs, list) else gs
+            out.append(gs.detach().numpy().copy())
+        return out
+
+    def pre_step(self):
+        """`optimizer.step()` split in its two halves so that pre_step's verdict is visible;
+        returns (ret, noise tensors drawn for the parameters in this call)"""
+        n0 = len(self.log.calls)
+        ret = self.opt.pre_step()
+        calls = self.log.calls[n0:]
+        z = [float(n0 + 1 + i) for i in range(len(calls))] if self.log.mode == "count" else [0.0] * len(calls)
+        return bool(ret), z[: len(self.opt.params)], calls
+
+    def summed(self):
+        return [None if p.summed_grad is None else p.summed_grad.detach().numpy().copy().reshape(tuple(p.shape)) for p in self.opt.params]
+
+    def grads(self):
+        return [None if p.grad is None else p.grad.detach().numpy().copy() for p in self.opt.params]
+
+    def values(self):
+        return [p.detach().numpy().copy() for p in self.opt.params]
+
+
+def make_inner(kind, params, lr):
+    if kind == "sgd":
+        return torch.optim.SGD(params, lr=lr)
+    if kind == "momentum":
+        return torch.optim.SGD(params, lr=lr, momentum=0.9)
+    if kind == "adam":
+        return torch.optim.Adam(params, lr=lr)
+    raise ValueError(kind)
+
+
+class EngineRun(Engine):
+    """One logical step of the real machinery on the logical batch (x, y).
+
+    max_phys  : None, or the max physical batch size for the real BatchMemoryManager
+    accum     : number of backward passes accumulated before the step (non-Poisson accumulation)
+    noise     : 'zero' | 'count' (rig.patched_normal modes)
+    Results: .summed_ (list of np arrays, `p.summed_grad` right after the step), .grad (`p.grad`
+    handed to the inner optimizer), .noise_calls, .opt_class, .norms (ghost only)
+    """
+
+    def __init__(self, spec, x, y, *, gsm_mode="hooks", clipping="flat", C=1.0, reduction="mean",
+                 max_phys=None, sigma=1.0, noise="zero", ebs=None, accum=1, col=False, inner="sgd", lr=0.0, capture=False):
+        n = len(x)
+        super().__init__(spec, gsm_mode=gsm_mode, clipping=clipping, C=C, reduction=reduction, sigma=sigma,
+                         ebs=ebs if ebs is not None else max(n, 1), col=col, inner=inner, lr=lr, capture=capture, noise=noise)
+        try:
             self.opt.zero_grad()
+            self.k_last = 1
             if max_phys is None:
                 # `accum` backward passes over consecutive slices, then one step
                 cuts = np.array_split(np.arange(n), accum) if n else [np.arange(0)]
                 for c in cuts:
-                    self._fb(x[c.tolist()], y[c.tolist()])
+                    self.fb(x[c.tolist()], y[c.tolist()])
+                self.k_last = len(cuts) if gsm_mode != "ghost" else 1
                 self.opt.step()
             else:
                 from opacus.utils.batch_memory_manager import BatchMemoryManager
@@ -318,27 +384,17 @@ class EngineRun:
                 with BatchMemoryManager(data_loader=dl, max_physical_batch_size=max_phys, optimizer=self.opt) as mdl:
                     it = list(mdl)
                     for bi, (xb, yb) in enumerate(it):
-                        self._fb(xb, yb)
+                        self.fb(xb, yb)
                         self.opt.step()
                         if bi + 1 < len(it):
                             self.opt.zero_grad()
-        self.noise_calls = list(log.calls)
-        ps = self.opt.params
-        self.summed = [None if p.summed_grad is None else p.summed_grad.detach().numpy().copy().reshape(tuple(p.shape)) for p in ps]
-        self.grad = [None if p.grad is None else p.grad.detach().numpy().copy() for p in ps]
+        finally:
+            self.close()
+        self.noise_calls = list(self.log.calls)
+        self.summed = self.summed()
+        self.grad = self.grads()
         self.C_after = float(self.opt.max_grad_norm)
-        self.param_norm_samples = [getattr(p, "_norm_sample", None) for p in ps]
-        self.param_names = [n for n, _ in self.plain.named_parameters()]
-
-    def _fb(self, xb, yb):
-        n0 = len(self._rec) if self._rec is not None else 0
-        out = self.gsm(xb)
-        loss = self.crit(out, yb)
-        loss.backward()
-        if self._rec is not None:
-            self.records.append((len(xb), self._rec[n0:]))
-        if hasattr(self.gsm, "_per_sample_gradient_norms") and self.gsm._per_sample_gradient_norms is not None:
-            self.norms.append(self.gsm._per_sample_gradient_norms.detach().numpy().copy())
+        self.param_norm_samples = [getattr(p, "_norm_sample", None) for p in self.opt.params]
 
 
 def flat_norm(ts):
